@@ -6,6 +6,6 @@ for p in "$@"; do
   ./check $p --tier thorough > /tmp/thorough.$$.log 2>&1
   rc=$?
   echo "thorough $p rc=$rc $(( $(date +%s) - t0 ))s $(grep -c '^KNOWN-FINDING' /tmp/thorough.$$.log) known, $(grep -c '^OBSERVATION' /tmp/thorough.$$.log) obs; $(grep "^$p " /tmp/thorough.$$.log | cut -c1-300)"
-  if [ $rc != 0 ]; then grep -v "^KNOWN-FINDING\|^OBSERVATION" /tmp/thorough.$$.log | cut -c1-1500 | tail -12; mkdir -p sweep_replays; cp replays/$p/*.json sweep_replays/ 2>/dev/null; fi
+  if [ $rc != 0 ]; then grep -v "^KNOWN-FINDING\|^OBSERVATION" /tmp/thorough.$$.log | cut -c1-1500 | tail -40; mkdir -p sweep_replays; cp replays/$p/*.json sweep_replays/ 2>/dev/null; fi
 done
 rm -f /tmp/thorough.$$.log
